@@ -117,42 +117,21 @@ def guards_with_context(fi):
 
 
 def add_validation(rep, idx):
+    from .common import get_fn, check_refusal
     fi = idx.find_func("wishbone:Decoder.add")
     site = fi.site
     rep.analysed(site)
-    g = guards_with_context(fi)
-    N = lambda t: ir.norm(ir.parse(t))
-
-    def has(test_alts, conds=None, exc=None, loop_vals=None):
-        for t, cs, loops, e, ln in g:
-            if t not in [N(x) for x in test_alts]:
-                continue
-            if exc is not None and e != exc:
-                continue
-            if conds is not None and [(c_, p) for c_, p in cs] != [(N(c_), p) for c_, p in conds]:
-                continue
-            if loop_vals is not None:
-                if not loops:
-                    continue
-                it = loops[-1]
-                vals = sorted(x[1] for x in it[1] if x[0] == 'const') if it[0] in ('set', 'tuple', 'list') else None
-                if vals != sorted(loop_vals):
-                    continue
-            return True
-        return False
-    rep.check(has(["not isinstance(sub_bus_unflipped, Interface)"], exc="TypeError"), "C07.5", site,
-              "add(): subordinate must be a wishbone.Interface", "type check with TypeError not found")
-    rep.check(has(["sub_bus.granularity > self.bus.granularity"], exc="ValueError"), "C07.5", site,
-              "add(): subordinate granularity must not be coarser than the decoder's", "guard not found")
-    rep.check(has(["sub_bus.data_width != self.bus.data_width"], conds=[("not sparse", True)], exc="ValueError") or
-              has(["sub_bus.data_width != self.bus.data_width"], conds=[("sparse", False)], exc="ValueError"), "C07.5", site,
-              "add(): dense translation requires equal data widths", "guard not found under `not sparse`")
-    rep.check(has(["sub_bus.granularity != sub_bus.data_width"], conds=[("not sparse", False)], exc="ValueError") or
-              has(["sub_bus.granularity != sub_bus.data_width"], conds=[("sparse", True)], exc="ValueError"), "C07.5", site,
-              "add(): sparse translation requires granularity == data width of the subordinate", "guard not found under `sparse`")
-    rep.check(has(["hasattr(sub_bus, opt_output) and Feature(opt_output) not in self.bus.features",
-                   "hasattr(sub_bus, opt_output) and not hasattr(self.bus, opt_output)"], exc="ValueError",
-                  loop_vals=["err", "rty", "stall"]), "C07.5", site,
-              "add(): optional outputs err/rty/stall of the subordinate need the decoder's feature",
-              "no such guard in a loop over {'err', 'rty', 'stall'}")
+    c = get_fn(idx, fi)
+    unfl = "flipped(sub_bus) if isinstance(sub_bus, wiring.FlippedInterface) else sub_bus"
+    check_refusal(rep, "C07.5", c, "add(): subordinate must be a wishbone.Interface (TypeError)",
+                  [f"not isinstance({unfl}, Interface)", "not isinstance(sub_bus, Interface)"], "TypeError")
+    check_refusal(rep, "C07.5", c, "add(): subordinate granularity must not be coarser than the decoder's",
+                  "sub_bus.granularity > self.bus.granularity", "ValueError")
+    check_refusal(rep, "C07.5", c, "add(): dense translation requires equal data widths",
+                  "not sparse and sub_bus.data_width != self.bus.data_width", "ValueError")
+    check_refusal(rep, "C07.5", c, "add(): sparse translation requires granularity == data width of the subordinate",
+                  "sparse and sub_bus.granularity != sub_bus.data_width", "ValueError")
+    check_refusal(rep, "C07.5", c, "add(): optional outputs err/rty/stall of the subordinate need the decoder's feature",
+                  ["hasattr(sub_bus, v) and Feature(v) not in self.bus.features", "hasattr(sub_bus, v) and not hasattr(self.bus, v)"],
+                  "ValueError", loop_values=["err", "rty", "stall"])
     glue.registry_and_window(rep, "C07.5", idx, fi, ("name", "addr", "sparse"))
